@@ -52,3 +52,102 @@ def all_contracts(tier):
     cs = [exact_init_contract(m, h, c) for m in (1, 2, 3) for h in range(m) for c in ((True, False) if m == 3 else (True,))] + [exact_init_rejects_empty()]
     table = {(EMOD, "PersLandscapeExact.compute_landscape"): Contract(EMOD, "PersLandscapeExact.compute_landscape", None, summary=compute_summary)}
     return cs, table
+
+
+# ----------------------------------------------------------------------------- PersLandscapeApprox.__init__ (diagram selection and grid defaults)
+AMOD = "persim/landscapes/approximate.py"
+
+
+def approx_compute_summary(eng, pos, kw):
+    o = pos[0]
+    eng.ghost.setdefault("acompute_calls", []).append((o.fields.get("dgms"), o.fields.get("start"), o.fields.get("stop"), o.fields.get("num_steps")))
+    return None
+
+
+def approx_init_contract(m, h, given):
+    """dgms passed: the diagram of degree h (finite bars only) is the one used; start / stop are the user's values when given, else
+    the smallest birth / largest death of that diagram's finite bars; values / grid size stored; landscape computed once"""
+    import z3
+    from pyvc.values import Num, b_and, lift, to_z3, zb
+    from pyvc.arrays import Arr
+
+    def make_args(eng):
+        o = Obj(cls=eng.module(AMOD).lookup("PersLandscapeApprox"))
+        ds = [sym_diagram(eng, "dgm%d" % i, finite=False, lo=(1 if i == h else 0))[0] for i in range(m)]
+        lst = list(ds)
+        args = {"self": o, "dgms": lst, "hom_deg": h, "num_steps": eng.fresh_int("num_steps", lo=2)}
+        args["start"] = eng.fresh_real("start_arg") if "start" in given else None
+        args["stop"] = eng.fresh_real("stop_arg") if "stop" in given else None
+        if "start" in given and "stop" in given:
+            pass
+        return args, {"o": o, "ds": ds, "lst": lst}
+
+    def requires(a):
+        # births are finite; the selected diagram keeps at least one bar of finite death (else min() of an empty sequence raises)
+        D = a.g["ds"][h]
+        e = a.eng
+        n = D.shape[0]
+        w = e.fresh_int("wfin", lo=0, hi=n)
+        a.g["wfin"] = w
+        i = z3.Int("rq_i")
+        return [("births_finite", z3.ForAll([i], z3.Implies(z3.And(i >= 0, i < to_z3(n)), zb(lift(e.under(z3.And(i >= 0, i < to_z3(n)), lambda: D.get(Num(i), 0))).finite())))),
+                ("some_bar_of_finite_death", lift(D.get(w, 1)).finite())]
+
+    def hint_mask(st):
+        # D6 facts of the finite-bar selection at the witness of the precondition: the selection is not empty
+        info = getattr(st.self.fields.get("dgms"), "compress", None)
+        if info is not None and "wfin" in st.g:
+            info.rank_of(st.g["wfin"])
+        return []
+
+    def not_plus_inf(v):
+        from pyvc import values as V
+        v = lift(v)
+        return BoolV_(V._kterm(v.k) != 1)
+
+    def ensures(a, res):
+        e, g = a.eng, a.g
+        f = g["o"].fields
+        D = g["ds"][h]
+        used = f.get("dgms")
+        out = [("degree_recorded", f.get("hom_deg") == h, "P"),
+               ("grid_size_stored", f.get("num_steps") is a.num_steps, "P"),
+               ("callers_list_of_diagrams_untouched", len(g["lst"]) == m and all(x is y for x, y in zip(g["lst"], g["ds"])), "P"),
+               ("landscape_computed_once", len(e.ghost.get("acompute_calls", [])) == 1, "P")]
+        if not (isinstance(used, Arr) and used.ndim == 2):
+            return out + [("uses_a_diagram", False, "P")]
+        # every bar used is a finite bar of dgms[h], and every finite bar of dgms[h] is used (mask compression D6)
+        info = getattr(used, "compress", None)
+        out.append(("bars_used_are_the_finite_bars_of_the_requested_degree", info is not None and info.base is D.buf if hasattr(info, "base") else info is not None, "S"))
+        k = e.fresh_int("ku", lo=0, hi=used.shape[0])
+        out.append(("no_bar_used_has_infinite_death", not_plus_inf(used.get(k, 1)), "P"))
+        n = D.shape[0]
+        q = e.fresh_int("kq", lo=0, hi=n)
+        fin = b_and(not_plus_inf(D.get(q, 1)), not_plus_inf(D.get(q, 0)))
+        if info is not None:
+            e.under(zb(fin), lambda: info.rank_of(q), default=None)
+        if "start" in given:
+            out.append(("start_as_given", f.get("start") is a.start, "P"))
+        else:
+            out.append(("start_is_a_lower_bound_of_the_finite_bars_births", BoolV_(z3.Implies(zb(fin), zb(lift(f.get("start")) <= D.get(q, 0)))), "P"))
+            out.append(("start_is_attained", e.exists(n, lambda t: b_and(not_plus_inf(D.get(t, 1)), lift(f.get("start")) == D.get(t, 0)), name="ws"), "P"))
+        if "stop" in given:
+            out.append(("stop_as_given", f.get("stop") is a.stop, "P"))
+        else:
+            out.append(("stop_is_an_upper_bound_of_the_finite_deaths", BoolV_(z3.Implies(zb(fin), zb(lift(f.get("stop")) >= D.get(q, 1)))), "P"))
+            out.append(("stop_is_attained", e.exists(n, lambda t: b_and(not_plus_inf(D.get(t, 1)), lift(f.get("stop")) == D.get(t, 1)), name="wt"), "P"))
+        return out
+    return Contract(AMOD, "PersLandscapeApprox.__init__", make_args, requires=requires, ensures=ensures, definedness="P",
+                    hints=[("self.dgms = self.dgms[~np.any(self.dgms == np.inf, axis=1)]", hint_mask)],
+                    variant="degrees=%d,hom_deg=%d,given=%s" % (m, h, ",".join(given)))
+
+
+def BoolV_(t):
+    from pyvc.values import BoolV
+    return BoolV(t)
+
+
+def approx_ctor_contracts(tier):
+    cs = [approx_init_contract(2, 1, ()), approx_init_contract(2, 0, ("start",)), approx_init_contract(1, 0, ("stop",)), approx_init_contract(3, 2, ("start", "stop"))]
+    table = {(AMOD, "PersLandscapeApprox.compute_landscape"): Contract(AMOD, "PersLandscapeApprox.compute_landscape", None, summary=approx_compute_summary)}
+    return cs, table
